@@ -174,10 +174,10 @@ def run_unit(unit, repo, workdir, variables=None, rlimit=None, suffix=''):
         fn_ms = {}
         for mt in smt.get('smt-run-module-times', []):
             for fb in mt.get('function-breakdown', []):
-                fn_ms[fb['function'].split('::')[-1]] = fb.get('time', 0)
+                fn_ms[fb['function'].split('::')[-1]] = fn_ms.get(fb['function'].split('::')[-1], 0) + fb.get('time', 0)
         for name, ob in res.obligations.items():
-            if ob.get('fn') in fn_ms:
-                ob['time_ms'] = fn_ms[ob['fn']]
+            if (ob.get('fn') or '').split('::')[-1] in fn_ms:
+                ob['time_ms'] = fn_ms[ob['fn'].split('::')[-1]]
     else:
         compile_failed = True
     if compile_failed or res.tooling:
